@@ -5,7 +5,7 @@ import TornadoModel.C30.Header
 import TornadoModel.C06.Roundtrip
 namespace TornadoModel.C30
 open TornadoModel.C06 (Str)
-open TornadoModel.C43 (ofAscii utf8Enc emailQuote parseHeader)
+open TornadoModel.C43 (ofAscii utf8Enc emailQuote)
 open TornadoModel
 
 /-! ### character classes -/
@@ -122,8 +122,8 @@ structure PartOK0 (p : Spec.Part) : Prop where
   fn_ok : ∀ fn, p.filename = some fn → fn ≠ [] ∧ AllGood fn
   ct_ok : ∀ ct, p.ctype = some ct → AllGood ct ∧ C06.stripWs ct = ct
 
-structure PartOK (p : Spec.Part) : Prop extends PartOK0 p where
-  bs : p.filename.isSome → p.name.getLast? ≠ some 92
+/-- since the `fix:` commit d01e7a8 nothing more is needed (before it: no upload whose field name ends in a backslash) -/
+abbrev PartOK (p : Spec.Part) : Prop := PartOK0 p
 
 theorem allGood_line1 (p : Spec.Part) (hp : PartOK0 p) : AllGood (line1 p) := by
   have h1 : AllGood (sCD ++ [58, 32]) := by decide
@@ -371,7 +371,7 @@ def finishPart (f : Form) (p : Spec.Part) (r : Except C43.Err (Str × List (Str 
                                                       contentType := p.ctype.getD (ofAscii "application/unknown") } f.files }
           | none => .ok { f with arguments := dappend name p.value f.arguments }
 
-/-- one encoded part, up to `_parse_header` (no hypothesis on trailing backslashes) -/
+/-- one encoded part, up to `_parse_header` -/
 theorem parsePart_content_gen (cfg : Config) (p : Spec.Part) (f : Form) (hp : PartOK0 p) :
     parsePart cfg (Spec.contentOf Spec.dispositionQ p) f =
       if (utf8Enc (headerText p)).length > cfg.maxPartHeaderSize then .error .httpInput
@@ -400,7 +400,7 @@ theorem parsePart_content_gen (cfg : Config) (p : Spec.Part) (f : Form) (hp : Pa
 theorem parsePart_content (cfg : Config) (p : Spec.Part) (f : Form) (hp : PartOK p) :
     parsePart cfg (Spec.contentOf Spec.dispositionQ p) f =
       if (utf8Enc (headerText p)).length > cfg.maxPartHeaderSize then .error .httpInput else .ok (stepOf f p) := by
-  rw [parsePart_content_gen cfg p f hp.toPartOK0, parseHeader_dispValue p.name p.filename hp.bs]
+  rw [parsePart_content_gen cfg p f hp, parseHeader_dispValue p.name p.filename]
   have hne : (ofAscii "name" = ofAscii "filename") = False := by simp; decide
   have hnm : p.name.isEmpty = false := by
     cases hnn : p.name with
@@ -584,7 +584,7 @@ structure WellFormed (cfg : Config) (b : Bytes) (parts : List Spec.Part) : Prop 
 
 /-- the hypotheses that do not mention the configured limits: a boundary without LF that does not start with a double
     quote and occurs nowhere in the content; names, filenames and content types a client can send in a quoted-string
-    header; no upload whose field name ends in a backslash (the recorded known finding) -/
+    header -/
 structure Sendable (b : Bytes) (parts : List Spec.Part) : Prop where
   boundary_plain : b.head? ≠ some 34
   boundary_lf : 10 ∉ b
@@ -592,7 +592,6 @@ structure Sendable (b : Bytes) (parts : List Spec.Part) : Prop where
   names : ∀ p ∈ parts, p.name ≠ [] ∧ C06.hasForbidden p.name = false ∧ p.name.all Wire.isScalar = true
   filenames : ∀ p ∈ parts, ∀ fn, p.filename = some fn → fn ≠ [] ∧ C06.hasForbidden fn = false ∧ fn.all Wire.isScalar = true
   ctypes : ∀ p ∈ parts, ∀ ct, p.ctype = some ct → C06.hasForbidden ct = false ∧ C06.stripWs ct = ct ∧ ct.all Wire.isScalar = true
-  backslash : ∀ p ∈ parts, p.filename.isSome → p.name.getLast? ≠ some 92
 
 theorem partOK0_of (p : Spec.Part)
     (hn : p.name ≠ [] ∧ C06.hasForbidden p.name = false ∧ p.name.all Wire.isScalar = true)
@@ -610,15 +609,15 @@ theorem WellFormed.partOK0 {cfg : Config} {b : Bytes} {parts : List Spec.Part} (
 
 theorem Sendable.partsOK {b : Bytes} {parts : List Spec.Part} (h : Sendable b parts) : PartsOK parts := by
   intro p hp
-  exact { toPartOK0 := partOK0_of p (h.names p hp) (h.filenames p hp) (h.ctypes p hp), bs := h.backslash p hp }
+  exact partOK0_of p (h.names p hp) (h.filenames p hp) (h.ctypes p hp)
 
 theorem WellFormed.sendable {cfg : Config} {b : Bytes} {parts : List Spec.Part} (h : WellFormed cfg b parts)
-    (hbs : ∀ p ∈ parts, p.filename.isSome → p.name.getLast? ≠ some 92) (hlf : 10 ∉ b) : Sendable b parts :=
+    (hlf : 10 ∉ b) : Sendable b parts :=
   { boundary_plain := h.boundary_plain, boundary_lf := hlf, fresh := h.fresh, names := h.names, filenames := h.filenames,
-    ctypes := h.ctypes, backslash := hbs }
+    ctypes := h.ctypes }
 
 /-- a body with a single part, whatever its name: the result is decided by `_parse_header` on the Content-Disposition
-    value (used to exhibit the known finding at the `parse_multipart_form_data` level) -/
+    value (used to evaluate the witness of the former finding at the `parse_multipart_form_data` level) -/
 theorem parseMultipart_single (cfg : Config) (b : Bytes) (p : Spec.Part) (hwf : WellFormed cfg b [p]) (h10 : 10 ∉ b) :
     parseMultipart cfg b (Spec.encodeMultipart b [p]) {} =
       finishPart {} p (parseHeader (dispValue p.name p.filename)) := by
